@@ -10,9 +10,11 @@ void *verif_poison_ptr(void) {
         void *p = mmap(0, 4096, PROT_NONE, MAP_PRIVATE | MAP_ANONYMOUS, -1, 0);
         return p;
 }
+void *verif_poison_obj(size_t n) { return mmap(0, (n + 4095) & ~4095ul, PROT_NONE, MAP_PRIVATE | MAP_ANONYMOUS, -1, 0); }
 void *verif_obj(size_t n) { if (n > (1u << 20)) return mmap(0, n, PROT_READ | PROT_WRITE, MAP_PRIVATE | MAP_ANONYMOUS | MAP_NORESERVE, -1, 0);
   unsigned char *p = malloc(n ? n : 1); for (size_t i = 0; i < n; i++) p[i] = (unsigned char) (0xA5 ^ i); return p; }
 #else
 void *verif_poison_ptr(void) { char *p = malloc(1); __CPROVER_assume(p != 0); free(p); return p; }
+void *verif_poison_obj(size_t n) { char *p = malloc(n); __CPROVER_assume(p != 0); free(p); return p; }
 void *verif_obj(size_t n) { char *p = malloc(n); __CPROVER_assume(p != 0); return p; }
 #endif
